@@ -80,6 +80,13 @@ class ArrState:
     def read(self, idx):
         v = self.base(*idx)
         for g, widx, wval in self.writes:
+            if widx == 'region':
+                # wval(idx) -> (condition that idx lies in the written region, value written there)
+                cond, val = wval(idx)
+                if g is not None:
+                    cond = z3.And(g, cond)
+                v = z3.If(cond, val, v)
+                continue
             cs = [a == b for a, b in zip(idx, widx)]
             if g is not None:
                 cs.append(g)
@@ -89,6 +96,9 @@ class ArrState:
 
     def write(self, guard, idx, val):
         return ArrState(self.base, self.writes + ((guard, tuple(idx), val),))
+
+    def write_region(self, guard, fn):
+        return ArrState(self.base, self.writes + ((guard, 'region', fn),))
 
 
 class ArrObj:
@@ -143,6 +153,54 @@ class View:
         return (self.length,)
 
 
+class ViewND:
+    """basic (strided) slice of an ArrObj: per source axis either a fixed index or (start, step, length)"""
+
+    def __init__(self, obj, axes, state=None):
+        self.obj = obj
+        self.axes = axes            # list of ('idx', e) | ('sl', start, step, length)
+        self.st = state             # ArrState captured at creation for value semantics (None: live view)
+
+    @property
+    def shape(self):
+        return tuple(a[3] for a in self.axes if a[0] == 'sl')
+
+    @property
+    def ndim(self):
+        return len(self.shape)
+
+    def src_index(self, idx):
+        out, k = [], 0
+        for a in self.axes:
+            if a[0] == 'idx':
+                out.append(R(a[1]))
+            else:
+                out.append(R(a[1]) + R(a[2]) * R(idx[k]))
+                k += 1
+        return out
+
+    def in_view(self, src_idx):
+        """(condition that the source index lies in the view, view index)"""
+        conds, vidx = [], []
+        for a, s_ in zip(self.axes, src_idx):
+            if a[0] == 'idx':
+                conds.append(s_ == R(a[1]))
+            else:
+                st, step, ln = R(a[1]), a[2], R(a[3])
+                if step == 1:
+                    q = s_ - st
+                else:
+                    conds.append((s_ - st) % step == 0)
+                    q = (s_ - st) / step
+                conds.append(z3.And(q >= 0, q < ln))
+                vidx.append(q)
+        return z3.And(*conds), vidx
+
+    def read(self, idx):
+        st = self.st if self.st is not None else self.obj.st
+        return st.read(self.src_index(idx))
+
+
 class Opaque:
     def __init__(self, what):
         self.what = what
@@ -169,6 +227,7 @@ class Ex:
         self.fresh = itertools.count()
         self.fp = fresh_prefix
         self.arrays = []                 # every ArrObj created / bound
+        self.region_writes = []
         self._solver = None
         self._solver_n = -1
         self.depth = 0
@@ -326,7 +385,7 @@ class Ex:
         return self.binop(n.op, self.ev(n.left), self.ev(n.right), n)
 
     def arrlike(self, v):
-        return isinstance(v, (ArrObj, LocalArr, View))
+        return isinstance(v, (ArrObj, LocalArr, View, ViewND))
 
     def length(self, v):
         return v.shape[0]
@@ -392,6 +451,10 @@ class Ex:
     def arr_binop(self, op, a, b, node):
         """element-wise array op -> fresh array whose base captures operand states"""
         def acc(v):
+            if isinstance(v, ViewND):
+                st = v.obj.st
+                vv = ViewND(v.obj, v.axes, state=st)
+                return (lambda *idx: vv.read(idx)), vv.shape
             if isinstance(v, ArrObj):
                 st = v.st
                 return (lambda *idx: st.read(idx)), v.shape
@@ -420,8 +483,13 @@ class Ex:
                 return X[0](R(i))
             return LocalArr([self.binop(op, el(A, a, i), el(B, b, i)) for i in range(n)])
         shape = (A or B)[1]
-        if len(shape) != 1 and A is not None and B is not None:
-            pass
+        if A is not None and B is not None:
+            if len(A[1]) != len(B[1]):
+                raise OutsideSubset('broadcasting between arrays of different rank')
+            # shapes must agree (no broadcasting): recorded as an obligation
+            self.bounds.append(dict(arr='shape-match', idx=tuple(R(x) for x in A[1]), shape=tuple(R(y) + 1 for y in B[1]),
+                                    hyps=list(self.hyps()), line=getattr(node, 'lineno', 0), kind='shape',
+                                    eq=[(R(x), R(y)) for x, y in zip(A[1], B[1])]))
 
         def base(*idx, A=A, B=B, a=a, b=b, op=op):
             x = A[0](*idx) if A is not None else a
@@ -480,10 +548,39 @@ class Ex:
             if k is None:
                 raise OutsideSubset('symbolic tuple index')
             return v[k]
+        if isinstance(v, ArrObj) and (isinstance(n.slice, ast.Slice) and v.ndim > 1 or
+                                      isinstance(n.slice, ast.Tuple) and any(isinstance(e, ast.Slice) for e in n.slice.elts)
+                                      or isinstance(n.slice, ast.Slice) and n.slice.step is not None):
+            return self.view_nd(v, n.slice)
         if isinstance(n.slice, ast.Slice):
             return self.slice_of(v, n.slice)
         idx = [self.ev(i) for i in self.index_list(n.slice)]
         return self.read(v, idx, n)
+
+    def view_nd(self, v, sl):
+        elts = list(sl.elts) if isinstance(sl, ast.Tuple) else [sl]
+        if len(elts) != v.ndim:
+            raise OutsideSubset('partial slicing')
+        axes = []
+        for e, dim in zip(elts, v.shape):
+            if isinstance(e, ast.Slice):
+                step = as_int(self.ev(e.step)) if e.step is not None else 1
+                if step is None or step <= 0:
+                    raise OutsideSubset('slice step')
+                lo = self.norm_index(self.ev(e.lower), dim) if e.lower is not None else 0
+                hi = self.norm_index(self.ev(e.upper), dim) if e.upper is not None else dim
+                span = self.binop(ast.Sub(), hi, lo)
+                ln = span if step == 1 else self.binop(ast.FloorDiv(), self.binop(ast.Add(), span, step - 1), step)
+                axes.append(('sl', lo, step, ln))
+                # slice bounds must lie inside the array (python would clip silently; we require it)
+                self.bounds.append(dict(arr=v.name, idx=(R(lo), R(hi)), shape=(R(dim) + 1, R(dim) + 1), hyps=list(self.hyps()),
+                                        line=getattr(e, 'lineno', 0), kind='slice'))
+            else:
+                i = self.norm_index(self.ev(e), dim)
+                self.bounds.append(dict(arr=v.name, idx=(R(i),), shape=(R(dim),), hyps=list(self.hyps()),
+                                        line=getattr(e, 'lineno', 0), kind='read'))
+                axes.append(('idx', i))
+        return ViewND(v, axes)
 
     def read(self, v, idx, node=None):
         if isinstance(v, LocalArr):
@@ -565,21 +662,6 @@ class Ex:
             return self.inline(node, [self.ev(a) for a in n.args], n)
         raise OutsideSubset(f'call {ast.unparse(f)} at line {n.lineno}')
 
-    def inline(self, fnode, args, callnode=None):
-        sub = Ex(self.mod, pc=self.pc, funcs=self.funcs, loops={}, fresh_prefix=self.fp)
-        sub.guards = list(self.guards)
-        sub.bounds = self.bounds
-        sub.rcp_terms = self.rcp_terms
-        sub.arrays = self.arrays
-        sub.fresh = self.fresh
-        sub.depth = self.depth + 1
-        params = [a.arg for a in fnode.args.args]
-        if len(params) != len(args):
-            raise OutsideSubset(f'arity mismatch calling {fnode.name}')
-        sub.env = dict(zip(params, args))
-        sub.run(intake.strip_doc(fnode.body))
-        return sub.retval
-
     # ------------------------------------------------------------ statements
     def run(self, stmts):
         for s in stmts:
@@ -610,6 +692,17 @@ class Ex:
     def st_AugAssign(self, s):
         cur = self.ev(s.target)
         rhs = self.ev(s.value)
+        if isinstance(cur, ArrObj) and isinstance(s.target, ast.Name):
+            # numpy in-place element-wise update of the whole array
+            new = self.arr_binop(s.op, cur, rhs, s)
+            st_new = new.st
+            if self.guard() is not None:
+                raise OutsideSubset('whole-array update under a guard')
+            cur.st = st_new
+            return
+        if isinstance(cur, ViewND) and isinstance(s.target, ast.Subscript):
+            new = self.arr_binop(s.op, cur, rhs, s)
+            return self.assign_view(cur, new, s)
         if isinstance(cur, ArrObj) or isinstance(cur, View) or isinstance(cur, LocalArr):
             raise OutsideSubset('whole-array augmented assignment')
         self.assign(s.target, self.binop(s.op, cur, rhs, s), s)
@@ -634,6 +727,8 @@ class Ex:
             return
         if isinstance(tgt, ast.Subscript):
             a = self.ev(tgt.value)
+            if isinstance(a, ArrObj) and (isinstance(tgt.slice, ast.Tuple) and any(isinstance(e, ast.Slice) for e in tgt.slice.elts)):
+                return self.assign_view(self.view_nd(a, tgt.slice), val, node)
             if isinstance(tgt.slice, ast.Slice):
                 sl = tgt.slice
                 if sl.lower is None and sl.upper is None and sl.step is None and not self.arrlike(val):
@@ -642,6 +737,32 @@ class Ex:
             idx = [self.ev(i) for i in self.index_list(tgt.slice)]
             return self.write(a, idx, val, node)
         raise OutsideSubset(f'assignment target {type(tgt).__name__}')
+
+    def assign_view(self, view, val, node=None):
+        """a[<slices>] = val   (val: scalar or array of the view's shape)"""
+        g = self.guard()
+        if self.arrlike(val):
+            if isinstance(val, ViewND):
+                src = ViewND(val.obj, val.axes, state=val.obj.st)
+                rd = lambda vidx: src.read(vidx)
+                shp = src.shape
+            elif isinstance(val, ArrObj):
+                st = val.st
+                rd = lambda vidx: st.read(vidx)
+                shp = val.shape
+            else:
+                raise OutsideSubset('slice assignment from a local array')
+            self.bounds.append(dict(arr='shape-match', idx=(), shape=(), hyps=list(self.hyps()), line=getattr(node, 'lineno', 0),
+                                    kind='shape', eq=[(R(x), R(y)) for x, y in zip(view.shape, shp)]))
+        else:
+            v0 = toreal(val)
+            rd = lambda vidx: v0
+
+        def layer(idx, view=view, rd=rd):
+            cond, vidx = view.in_view([R(i) for i in idx])
+            return cond, rd(vidx)
+        view.obj.st = view.obj.st.write_region(g, layer)
+        self.region_writes.append(dict(arr=view.obj.name, view=view, hyps=list(self.hyps()), line=getattr(node, 'lineno', 0)))
 
     def fill(self, a, val, g):
         val = toreal(val)
@@ -763,10 +884,49 @@ class Ex:
                 raise StopExec(label)
             if kind == 'symseq':
                 return          # contract states (and separately proves) why the sequence is representative
+            if opts.get('map'):
+                return self.summarise_map_loop(s, label, vars_[0], rng)
             # leave the loop: havoc what the body wrote
             self.havoc_after_loop(s, label)
             return
         raise OutsideSubset(f'unknown loop policy {kind}')
+
+    def summarise_map_loop(self, s, label, var, rng):
+        """independent-iteration loop over 1-D arrays (rule 1): every iteration writes only cell [var] of each
+        written array and reads written arrays only at that cell; then after the loop
+        a[q] = (value written by iteration q) for q in the range, untouched elsewhere."""
+        pre = self.snap[label + ':pre']
+        rngc = z3.And(*rng)
+        for a in self.arrays:
+            st0 = pre['arr'].get(a.uid)
+            if st0 is None or a.st is st0:
+                continue
+            new = a.st.writes[len(st0.writes):]
+            if a.ndim != 1 or a.st.base is not st0.base or a.st.writes[:len(st0.writes)] != st0.writes:
+                raise OutsideSubset(f'map-loop summary: unsupported update of {a.name}')
+            for g, widx, wval in new:
+                if widx == 'region' or not (len(widx) == 1 and z3.simplify(widx[0] - var).eq(z3.IntVal(0))):
+                    raise OutsideSubset(f'map-loop summary: {a.name} is not written at [loop variable]')
+            # reads of a inside the written values must be at the own cell: checked on the recorded reads
+            for b in self.bounds[pre['nb']:]:
+                if b['arr'] == a.name and b['kind'] == 'read':
+                    if not z3.simplify(b['idx'][0] - var).eq(z3.IntVal(0)):
+                        raise OutsideSubset(f'map-loop summary: {a.name} read at another cell inside the loop')
+            st = st0
+            for g, widx, wval in new:
+                def layer(idx, g=g, wval=wval):
+                    q = idx[0]
+                    cond = z3.substitute(rngc, (var, q))
+                    if g is not None:
+                        cond = z3.And(cond, z3.substitute(g, (var, q)))
+                    return cond, z3.substitute(wval, (var, q))
+                st = st.write_region(None, layer)
+            a.st = st
+        # scalars assigned in the body are dead after the loop (fresh)
+        for k, v in list(self.env.items()):
+            if k in pre['env'] and pre['env'][k] is not v and not self.arrlike(v) and not isinstance(v, (tuple, Opaque)) \
+                    and z3.is_expr(R(v)):
+                self.env[k] = z3.Const(f'{self.fp}{k}_m{next(self.fresh)}', R(v).sort())
 
     def loop_modified(self, s):
         """names syntactically assigned, stored into, or passed to a call inside the loop body"""
@@ -842,7 +1002,7 @@ class Ex:
     def take_snapshot(self, label):
         self.snap[label] = dict(env=dict(self.env), arr={a.uid: a.st for a in self.arrays},
                                 loc={k: list(v.vals) for k, v in self.env.items() if isinstance(v, LocalArr)},
-                                pc=list(self.pc), guards=list(self.guards))
+                                pc=list(self.pc), guards=list(self.guards), nb=len(self.bounds))
 
     # ------------------------------------------------------------ entry
     def run_function(self, fnode, args):
@@ -876,6 +1036,7 @@ def _inline(self, fnode, args, callnode=None):
     sub.bounds = self.bounds
     sub.rcp_terms = self.rcp_terms
     sub.arrays = self.arrays
+    sub.region_writes = self.region_writes
     sub.fresh = self.fresh
     sub.depth = self.depth + 1
     params = [a.arg for a in fnode.args.args]
